@@ -469,6 +469,41 @@ func (r *c10Run) step(ctx context.Context, raw json.RawMessage) {
 			r.b.Emit("Reg", "e", id, "L", l, "err", e1 != nil, "burst", 1)
 			r.b.Emit("Bad", "e", id, "L", bad, "rejected", e2 != nil)
 		}
+	case "Race":
+		// the endpoint is removed WHILE a successful listing of it is registered: whichever is taken to be the later
+		// one, every view must tell the same story afterwards (several rounds, a dump after each: the window is small)
+		id := zzverif.Str(args[0])
+		l := c10Entries(args[1])
+		for round := 0; round < 12; round++ {
+			var e1, e2 error
+			r.rig.be[id].script(c10Resp{status: 200, listing: l})
+			// the removal starts somewhere inside the discovery (HTTP fetch, filter, registration): 0 .. 1.5 ms later
+			delay := time.Duration((round*137+len(l)*61)%1500) * time.Microsecond
+			ok := r.guarded("Race", func() {
+				var wg sync.WaitGroup
+				start := make(chan struct{})
+				wg.Add(2)
+				go func() {
+					defer wg.Done()
+					<-start
+					time.Sleep(delay)
+					e1 = r.reg.RemoveEndpoint(ctx, r.eps[id].URLString)
+				}()
+				go func() { defer wg.Done(); <-start; e2 = r.discover(ctx, id) }()
+				close(start)
+				wg.Wait()
+			})
+			if !ok {
+				return
+			}
+			if e2 == nil && r.unified {
+				r.expected++
+			}
+			r.b.Emit("Race", "e", id, "L", l, "errRm", e1 != nil, "errReg", e2 != nil)
+			if round < 11 {
+				r.guarded("Dump", func() { r.dump(ctx) })
+			}
+		}
 	case "Swap":
 		// two successful discoveries of one endpoint whose background unifications run in the OPPOSITE order: the
 		// first one's is held at the gate until the second one's has finished
